@@ -7,7 +7,7 @@ ID = "C07"
 SWITCH_OFF = 6        # every 6th case runs with xfab.CHECKS switched off (results must not depend on it)
 RULE = ("one unit per setting (230 standard + 7 rhombohedral, called by name incl. case/blank variants); per case a conforming "
         "cell, 1-4 atoms at generic positions k/9973 with element from the full table, occupancy in (0,1], Uiso / positive-definite "
-        "Uani / no ADP, symmulti = nsymop, three hkl in [-8,8]^3, an operation index, and an operator-extinct hkl picked from the "
+        "Uani / no ADP, symmulti = nsymop, six hkl in [-8,8]^3 (one case in four [-24,24]^3; one case in eight a 40x larger cell with indices in [-200,200]^3), an operation index, and an operator-extinct hkl picked from the "
         "box [-4,4]^3 when the group has one. Oracle: F(hR) = F(h) exp(-2 pi i h.t), |F| constant over the orbit, F = 0 when "
         "extinct, Friedel F(-h) = conj F(h) without dispersion. Non-trivial = the drawn R is not symmetric or t != 0 with h.t non-integral")
 ASSUMPTIONS = ["tolerance 1e-9 S + 4 pi sum(occ f(0)) nsymop |h|_1 delta, S = total scattering power, delta = rounding of the tabulated translations (3.4e-7 for thirds/sixths)",
